@@ -29,6 +29,10 @@ SC == INSTANCE SignCrypt WITH Keys <- {}, Lens <- {}, Depth <- 0, MaxN <- 0, Mod
 EG == INSTANCE ElGamal WITH Keys <- {}, Plains <- {}, MaxSum <- 0, MaxN <- 0, Depth <- 0, Emit <- FALSE,
                             phase <- dummy, pf <- dummy, last <- dummy
 
+\* the proof-of-knowledge operators as the code is (MessageAugmentation commitments hash the plain message: D6)
+PK == INSTANCE Pok WITH Keys <- {}, MsgRs <- {}, Taus <- {}, Deviations <- {"PokAugPlainMsg"}, Emit <- FALSE,
+                        phase <- dummy, ses <- dummy, clock <- dummy, last <- dummy
+
 \* a value: kind, scheme label, group element, scalar polynomial, and a kind-specific record x
 VX(kind, scheme, den, p, x) == [kind |-> kind, scheme |-> scheme, den |-> den, p |-> p, x |-> x]
 V(kind, scheme, den, p) == VX(kind, scheme, den, p, <<>>)
@@ -306,12 +310,51 @@ TEGDecrypt == /\ IsEvent("EGDecrypt")
 TEGPlain == /\ IsEvent("EGPlain")
             /\ Bind(Rec[l].out, V("kpt", "", GScale(PConst(Rec[l].m), GenM), PZero))
 
+\* ------------------------------------------------------------ proofs of knowledge
+TPokCommit == /\ IsEvent("PokCommit")
+              /\ LET e == Rec[l]  sg == val[e.sig] IN
+                   /\ Known(e.sig, "sig")
+                   /\ Bind(e.out, VX("pokc", sg.scheme, GScale(PAtom(e.atom), Hs(TagOf(sg.scheme), PK!CommitMsg(sg.scheme, GId, TMsg(e.msg)))), PAtom(e.atom), <<>>))
+
+TPokChallenge == /\ IsEvent("PokChallenge")
+                 /\ LET e == Rec[l] IN
+                      Bind(e.out, V("poky", "", GId, CASE e.kind = "int" -> PConst(e.k) [] e.kind = "zero" -> PZero [] OTHER -> PAtom(e.atom)))
+
+TPokFinalize == /\ IsEvent("PokFinalize")
+                /\ LET e == Rec[l]  c == val[e.commit]  sg == val[e.sig]
+                       f == IF c.scheme # sg.scheme THEN [r |-> Err("InvalidProof"), v |-> GId] ELSE PK!Finalize(c.den, c.p, val[e.y].p, sg.den) IN
+                     /\ Known(e.commit, "pokc") /\ Known(e.y, "poky") /\ Known(e.sig, "sig")
+                     /\ e.res = f.r.t
+                     /\ IF IsOk(f.r) THEN Bind(e.out, VX("pok", c.scheme, GId, PZero, [u |-> c.den, v |-> f.v])) ELSE UNCHANGED val
+
+TPokVerify == /\ IsEvent("PokVerify")
+              /\ LET e == Rec[l]  pf == val[e.proof] IN
+                   /\ Known(e.proof, "pok") /\ Known(e.pk, "pk") /\ Known(e.y, "poky")
+                   /\ e.res = PK!VerifyPok(pf.x.u, pf.x.v, val[e.pk].den, val[e.y].p, pf.scheme, TMsg(e.msg)).t
+              /\ UNCHANGED val
+
+\* timestamp variant: the challenge is Hy(u, t), an atom named after the proof; the harness pins the clock
+TPokTsGen == /\ IsEvent("PokTsGen")
+             /\ LET e == Rec[l]  sg == val[e.sig]
+                    u == GScale(PAtom(e.atom), Hs(TagOf(sg.scheme), PK!CommitMsg(sg.scheme, GId, TMsg(e.msg))))
+                    y == PAtom("y" \o e.atom) IN
+                  /\ Known(e.sig, "sig")
+                  /\ e.ts = e.now
+                  /\ Bind(e.out, VX("pokts", sg.scheme, GId, PZero, [u |-> u, v |-> GNeg(GScale(PAdd(PAtom(e.atom), y), sg.den)), y |-> y, ts |-> e.ts]))
+
+TPokTsVerify == /\ IsEvent("PokTsVerify")
+                /\ LET e == Rec[l]  pf == val[e.proof] IN
+                     /\ Known(e.proof, "pokts") /\ Known(e.pk, "pk")
+                     /\ e.res = PK!VerifyTs(pf.x.u, pf.x.v, val[e.pk].den, pf.x.y, pf.scheme, TMsg(e.msg), pf.x.ts, e.now, e.tau).t
+                /\ UNCHANGED val
+
 TraceInit == l = 1 /\ val = NoVal /\ dummy = 0
 TraceNext == \/ TReset \/ TSk \/ TPk \/ TSign \/ TVerify \/ TSigOp \/ TPkOp \/ TPopProve \/ TPopVerify
              \/ TPopAsSig \/ TAggregate \/ TAggVerify \/ TAccumulate \/ TMultiKey \/ TMultiVerify
              \/ TSplit \/ TPkShare \/ TPartialSign \/ TPartialVerify \/ TCombineSig \/ TCombinePk \/ TCombineKey
              \/ TTLSeal \/ TTLDecrypt \/ TSCSeal \/ TSCValid \/ TSCDecrypt \/ TSCDecShare \/ TSCShareVerify \/ TSCDecryptShares
              \/ TEGEncrypt \/ TEGAdd \/ TEGDecrypt \/ TEGPlain
+             \/ TPokCommit \/ TPokChallenge \/ TPokFinalize \/ TPokVerify \/ TPokTsGen \/ TPokTsVerify
 TraceSpec == TraceInit /\ [][TraceNext /\ UNCHANGED dummy]_tvars
 
 \* C04 on every observed state: nothing accepted had an identity operand (checked inside the
